@@ -477,6 +477,26 @@ def configs(thorough):
     return out
 
 
+def refill_histories(ctx):
+    """One BeckeWeights instance; the point and coordinate arrays are refilled in place between calls."""
+    from grid.becke import BeckeWeights
+
+    rng = np.random.default_rng([ctx.seed, 61])
+    bw = BeckeWeights(order=3)
+    atn = np.array([8, 1, 6])
+    A = (rng.normal(size=(12, 3)), np.array([[0.0, 0, 0], [0, 0, 1.8], [1.5, 0.2, 0]]))
+    B = (rng.normal(size=(12, 3)) * 1.5, np.array([[0.1, 0, 0.3], [0, 1.1, 1.2], [-1.4, 0.2, 0]]))
+    idx = np.array([0, 4, 8, 12])
+    with warnings.catch_warnings():
+        warnings.simplefilter("ignore")
+        for nm, fn, fresh in (
+                ("generate_weights", lambda p, c: bw.generate_weights(p, c, atn, select=1), lambda p, c: BeckeWeights(order=3).generate_weights(p, c, atn, select=1)),
+                ("compute_atom_weight", lambda p, c: bw.compute_atom_weight(p, c, atn, 2), lambda p, c: BeckeWeights(order=3).compute_atom_weight(p, c, atn, 2)),
+                ("compute_weights", lambda p, c: bw.compute_weights(p, c, atn, pt_ind=idx), lambda p, c: BeckeWeights(order=3).compute_weights(p, c, atn, pt_ind=idx)),
+                ("__call__", lambda p, c: bw(p, c, atn, idx), lambda p, c: BeckeWeights(order=3)(p, c, atn, idx))):
+            lattice.refill_check(ctx, nm, {"route": "refill"}, fn, A, B, fresh_fn=fresh, rtol=1e-13, atol=1e-15)
+
+
 def run(ctx):
     jobs = [(g, a, o, ctx.seed, f) for g, a, o, f in configs(ctx.thorough)]
     for natoms in (9, 12, 15) + ((18,) if ctx.thorough else ()):
@@ -488,6 +508,7 @@ def run(ctx):
             res["samples"] = []
         ctx.merge(res)
     ctx.guarded("hirshfeld", hirshfeld, ctx)
+    ctx.guarded("refill", refill_histories, ctx)
     from vf import explore
 
     st = explore.explore(ctx, "vf.props.c06:InstanceWorld", 3 if ctx.thorough else 2, params={"order": 3}, twice_every=9, fresh_every=0,
@@ -503,6 +524,8 @@ def replay(ctx, case):
         from vf import explore
 
         return explore.replay_history(ctx, case)
+    if case.get("route") == "refill":
+        return refill_histories(ctx)
     if case.get("route") == "hirshfeld":
         return hirshfeld(ctx)
     if case.get("route") == "many":
